@@ -11,8 +11,12 @@ def rand_mesh(rng, nx, ny, symmetry, right=False, planar=False, jitter=0.01, spa
     symmetry=False: full-span mesh with ny nodes (ny odd for rect generator; even ny built by
                     dropping the generator and using a uniform grid)
     """
+    span_given = span is not None
     span = float(rng.uniform(4.0, 14.0)) if span is None else span
     chord = float(rng.uniform(0.6, 2.5))
+    if not span_given and rng.uniform() < 0.25:
+        # overall size: from a hand-launched UAV (span of a few decimetres) to a very large transport
+        k = float(10 ** rng.uniform(-1.3, 0.7)); span *= k; chord *= k
     num_y = 2 * ny - 1 if symmetry else ny
     if num_y % 2 == 1 and num_y >= 3:
         md = dict(num_x=nx, num_y=num_y, wing_type="rect", symmetry=symmetry, span=span, root_chord=chord,
